@@ -104,6 +104,8 @@ pub enum HolderKey {
     /// second holder pairs (another holder)
     Ec2,
     Ed2,
+    /// the SAME key material as `Ec`, but a JWK with other metadata (kid / use / alg members)
+    EcKid,
 }
 
 impl HolderKey {
@@ -117,6 +119,7 @@ impl HolderKey {
             HolderKey::Ed => Some(ED_HOLDER_JWK),
             HolderKey::Ec2 => Some(EC_HOLDER2_JWK),
             HolderKey::Ed2 => Some(ED_HOLDER2_JWK),
+            HolderKey::EcKid => Some(EC_HOLDER_JWK),
         }
     }
     pub fn jwk(self) -> Option<Jwk> {
@@ -126,6 +129,11 @@ impl HolderKey {
             // a key must be identified by its material, never by an optional label
             if matches!(self, HolderKey::Ec2 | HolderKey::Ed2) {
                 v["kid"] = Value::String("52128f2e-900e-414e-81c3-0b5f86f0f7b3".into());
+            }
+            if self == HolderKey::EcKid {
+                v["kid"] = Value::String("wallet-key-rotated-label".into());
+                v["use"] = Value::String("sig".into());
+                v["alg"] = Value::String("ES256".into());
             }
             serde_json::from_value(v).unwrap()
         })
@@ -137,7 +145,7 @@ impl HolderKey {
     pub fn enc(self) -> Option<EncodingKey> {
         match self {
             HolderKey::None => None,
-            HolderKey::Ec => Some(EncodingKey::from_ec_pem(EC_HOLDER_PRIV.as_bytes()).unwrap()),
+            HolderKey::Ec | HolderKey::EcKid => Some(EncodingKey::from_ec_pem(EC_HOLDER_PRIV.as_bytes()).unwrap()),
             HolderKey::Ed => Some(EncodingKey::from_ed_pem(ED_HOLDER_PRIV.as_bytes()).unwrap()),
             HolderKey::Ec2 => Some(EncodingKey::from_ec_pem(EC_HOLDER2_PRIV.as_bytes()).unwrap()),
             HolderKey::Ed2 => Some(EncodingKey::from_ed_pem(ED_HOLDER2_PRIV.as_bytes()).unwrap()),
@@ -146,7 +154,7 @@ impl HolderKey {
     pub fn alg(self) -> Option<Alg> {
         match self {
             HolderKey::None => None,
-            HolderKey::Ec | HolderKey::Ec2 => Some(Alg::ES256),
+            HolderKey::Ec | HolderKey::Ec2 | HolderKey::EcKid => Some(Alg::ES256),
             HolderKey::Ed | HolderKey::Ed2 => Some(Alg::EdDSA),
         }
     }
@@ -157,6 +165,7 @@ impl HolderKey {
             HolderKey::Ed => "EdDSA",
             HolderKey::Ec2 => "ES256#2",
             HolderKey::Ed2 => "EdDSA#2",
+            HolderKey::EcKid => "ES256+metadata",
         }
     }
 }
